@@ -1,7 +1,7 @@
 ---- MODULE MC_Evidence ----
 EXTENDS PsaEvidence
 \* the strongest adversary: every honest signature is available from the start
-AllSigned == {Sig(k, a, p) : k \in Keys, a \in Algs, p \in ClaimIds}
+AllSigned == {Sig(k, a, p) : k \in Keys, a \in Algs, p \in ClaimIds} \cup ForeignSigs
 EInitAll == ev = EvInit /\ signed = AllSigned /\ eret = RetRec("init", Res(TRUE, NoMsg))
 ESpecAll == EInitAll /\ [][ENext]_evars
 ====
